@@ -140,7 +140,7 @@ static void sb_adds(sb_t *s, const char *t) { sb_add(s, t, strlen(t)); }
 static void sb_fill(sb_t *s, int c, size_t n) { for (size_t i = 0; i < n; i++) { char ch = (char) c; sb_add(s, &ch, 1); } }
 
 static const char *PREWORDS[] = { "snap", "pre", "alpha", "beta", "rc" };
-static const char *OTHERWORDS[] = { "a", "b", "p", "final", "patch", "rel", "x", "dev", "Final", "P", "git", "z" };
+static const char *OTHERWORDS[] = { "a", "b", "p", "final", "patch", "rel", "x", "dev", "Final", "P", "git", "z", "fin", "finals", "patched", "release", "pat", "de" };
 
 static void gen_number(sb_t *s)
 {
@@ -172,7 +172,20 @@ static void gen_wf_variant(const char *a, sb_t *s)
     /* split a into numeric head and suffix */
     size_t hl = 0; while (a[hl] && (klass((unsigned char) a[hl]) == K_DIG || a[hl] == '.')) hl++;
     const char *suf = a + hl;
-    switch (vh_below(6)) {
+    int which = (int) vh_below(7);
+    if (which == 6) {                                                                /* an "other" word that shares a long prefix with a's word */
+        const char *d = suf; while (klass((unsigned char) *d) == K_ALPHA) d++;
+        size_t wl = (size_t) (d - suf);
+        if (wl == 0 || word_rank(suf, wl) != 6) which = 2;
+        else {
+            sb_add(s, a, hl + wl);
+            if (vh_coin(50)) { char c = (char) vh_range('a', 'z'); sb_add(s, &c, 1); }
+            else { char c = s->p[s->n - 1]; s->p[s->n - 1] = (char) (c == 'z' ? 'y' : c == 'Z' ? 'Y' : c + 1); }
+            if (vh_coin(70)) sb_adds(s, d);
+            return;
+        }
+    }
+    switch (which) {
     case 0: sb_add(s, a, hl); break;                                                /* bare version */
     case 1: sb_add(s, a, hl); sb_adds(s, "."); gen_number(s); if (vh_coin(30)) sb_adds(s, suf); break;   /* one more component */
     case 2: {                                                                        /* other suffix word, same number */
@@ -315,6 +328,8 @@ int main(int argc, char **argv)
     vh_init(argc, argv, "C17");
     init_priors();
     int L = strcmp(vh_tier, "thorough") == 0 ? 4 : 3;
+    for (int i = 1; i + 1 < argc; i++) if (!strcmp(argv[i], "--L")) L = atoi(argv[i + 1]);      /* memcheck run: smaller grid */
+    if (L < 0 || L > 4) L = 3;
     long E = (long) small_count(L), grid = E * E;
     while (vh_next_case()) {
         if (VH_CASE_TRY()) {
